@@ -847,7 +847,7 @@ fn arm_trace(op: &'static str, cx: &mut Ctx) -> bool {
 fn arm4(op: &'static str, cx: &mut Ctx) -> bool {
     match op {
         "glwe_external_product" | "glwe_external_product_assign" | "gglwe_external_product" | "gglwe_external_product_assign" | "ggsw_external_product"
-        | "ggsw_external_product_assign" | "cmux" | "cmux_assign" | "cmux_assign_neg" => arm_xp(op, cx),
+        | "ggsw_external_product_assign" | "cmux" | "cmux_assign" | "cmux_assign_neg" | "cswap" => arm_xp(op, cx),
         "ggsw_from_gglwe" => arm_ggsw_from_gglwe(op, cx),
         _ => arm5(op, cx),
     }
@@ -909,6 +909,34 @@ fn arm_xp(op: &'static str, cx: &mut Ctx) -> bool {
                 call = |sc| if inplace { module.glwe_external_product_assign(&mut res, &gprep, sc) } else { module.glwe_external_product(&mut res, &a, &gprep, sc) },
                 ro = vec![("a", b_glwe(&a)), ("ggsw_prepared", rdk(gref))],
                 out = rd(rref), guards = vec![rref]);
+        }
+        "cswap" => {
+            // conditional swap of two ciphertexts (bin-fhe `Cswap`): both are inputs and outputs; all radices agree
+            let a_size = pick_size(cx, 5);
+            let b_size = if cx.rs.below(3) == 0 { pick_size(cx, 5) } else { a_size };
+            cx.p("a_size", a_size);
+            cx.p("b_size", b_size);
+            // both ciphertexts share one radix, which differs from the selector's in a third of the cases
+            let ct_b = if cx.rs.below(3) == 0 { cx.rs.usize_in(4, in_cap) } else { b };
+            cx.p("ct_base2k", ct_b);
+            let a = rand_glwe(cx, n, ct_b, a_size, rank);
+            let bb = rand_glwe(cx, n, ct_b, b_size, rank);
+            let (a_lay, b_lay) = (glwe_lay(n, ct_b, a_size * ct_b, rank), glwe_lay(n, ct_b, b_size * ct_b, rank));
+            let bytes = module.cswap_tmp_bytes(&a_lay, &b_lay, &lay);
+            exec!(cx, bytes,
+                dest = {
+                    let mut ha = cx.dest(GLWE::<Vec<u8>>::bytes_of_from_infos(&a_lay));
+                    let aref = ha.g.raw_ref();
+                    let (mut ra, _) = ha.sc().take_glwe(&a_lay);
+                    let mut hb = cx.dest(GLWE::<Vec<u8>>::bytes_of_from_infos(&b_lay));
+                    let bref = hb.g.raw_ref();
+                    let (mut rb, _) = hb.sc().take_glwe(&b_lay);
+                    ra.data_mut().raw_mut().copy_from_slice(a.data().raw());
+                    rb.data_mut().raw_mut().copy_from_slice(bb.data().raw());
+                },
+                call = |sc| module.cswap(&mut ra, &mut rb, &gprep, sc),
+                ro = vec![("ggsw_prepared", rdk(gref))],
+                out = { let mut v = rd(aref); v.extend(rd(bref)); v }, guards = vec![aref, bref]);
         }
         "cmux" | "cmux_assign" | "cmux_assign_neg" => {
             // all radices agree (glwe_sub + product + add_small of f)
